@@ -64,8 +64,10 @@ func (v *Voting[_, _]) outcomeIndex(numRequiredVotes int) (int, bool) {
 	for _, vote := range v.Votes {
 		numVotes[vote]++
 	}
-	for index, votes := range numVotes {
-		if votes >= numRequiredVotes {
+	// Scan the candidates in insertion order: the result must not depend on map iteration
+	// order, otherwise replicas can disagree when two candidates reach the threshold.
+	for index := range v.Candidates {
+		if votes, ok := numVotes[index]; ok && votes >= numRequiredVotes {
 			return index, true
 		}
 	}
